@@ -302,6 +302,152 @@ def gen_macro_case(rng, idx):
     return text, sorted(g.feats)
 
 
+# ------------------------------------------------------------------ line structure (round 3, wave z)
+# Text lines and directives INTERLEAVED: what the preprocessor must remember across a new-line is only "this is the start of a
+# line" (C11 6.10p2: a directive begins with a # that is the first token of a line), whatever token sequence the previous line
+# ended with and whatever the expansion machinery did with the new-line while looking at it (skipping it in the search for the
+# `(` of a function-like macro, collecting it into an argument, passing an end-of-replacement marker, ...).  A case is a random
+# tree of if-sections whose groups hold text lines ending in every kind of token sequence, each followed by directives whose
+# effect is observable (#define / #undef / redefinition of the very macro named at the end of the line, conditionals with marker
+# tokens in every group, #include, the null directive); the macro state is printed at the end.
+LINE_INC_NAME = 'c09tail.h'      # a header whose last token is the bare name of a function-like macro
+LINE_INC_TEXT = '#define C09TAIL(x) < x >\nc09tail_body C09TAIL\n'
+
+
+def gen_line_case(rng, idx, inc_name=None, comments=True):
+    px = 'l%d_' % idx
+    F, Z, V, AL, AL2, TAIL, ID, PAIR, EMPTY, RF, ST, OBJ = [px + n for n in
+        ('F', 'Z', 'V', 'AL', 'AL2', 'TAIL', 'ID', 'PAIR', 'EMPTY', 'RF', 'ST', 'OBJ')]
+    feats = set()
+    fnames = [F, Z, V]
+    al_target = rng.choice(fnames)
+    defs = ['#define %s(x) (( x ) + ( x ))' % F, '#define %s() [ z ]' % Z, '#define %s(...) < __VA_ARGS__ >' % V,
+            '#define %s %s' % (AL, al_target), '#define %s %s %s' % (AL2, rng.choice(['', 'q', '+']), AL),
+            '#define %s(x) x %s' % (TAIL, rng.choice(fnames)), '#define %s(x) x' % ID, '#define %s(x, y) x y' % PAIR,
+            '#define %s' % EMPTY, '#define %s(x) x %s' % (RF, RF), '#define %s 0' % ST, '#define %s ( 7 )' % OBJ]
+    rng.shuffle(defs)
+    cnt = [0]
+
+    def bare():
+        return rng.choice(fnames)
+
+    def ending():
+        """(text, feature): the token sequence a line ends with"""
+        k = rng.random()
+        if k < 0.34:
+            f = bare()
+            pre = rng.choice(['', '', '= & ', '{ %s , ' % bare(), 'p ', '1 + ', EMPTY + ' '])
+            return pre + f, 'bare-function-like-name'
+        if k < 0.42:
+            return rng.choice([AL, AL2, '& ' + AL]), 'object-like-alias-of-function-like-name'
+        if k < 0.50:
+            return rng.choice(['%s(1)' % TAIL, '%s( %s )' % (TAIL, bare()), '%s(%s(2))' % (ID, TAIL), '%s(1)' % RF]), \
+                'call-whose-expansion-ends-with-function-like-name'
+        if k < 0.60:
+            f = bare()
+            return rng.choice(['%s(%s)' % (ID, f), '%s( %s )' % (ID, f), '%s(%s\n)' % (ID, f), '%s(\n%s)' % (ID, f),
+                               '%s(%s , %s)' % (PAIR, f, bare()), '%s(%s)' % (V, f), '%s(%s(%s ))' % (ID, ID, f),
+                               '%s(%s, %s)' % (PAIR, AL, f), '%s(%s)' % (ID, AL)]), 'function-like-name-inside-arguments'
+        if k < 0.72:
+            f = bare()
+            nxt = rng.choice([AL, EMPTY, ST, OBJ + ' x', '%s(2)' % ID, '%s(1)' % F, '%s()' % Z, bare(), '%s %s' % (EMPTY, EMPTY),
+                              '%s %s' % (EMPTY, bare()), '%s(%s)' % (ID, EMPTY)])
+            return f + rng.choice([' ', ' ', '\n', ' /* c */ ' if comments else '  ']) + nxt, 'function-like-name-before-another-macro'
+        if k < 0.80:
+            return rng.choice(['%s\n(3)' % F, '%s (3)' % F, '%s\n\n( )' % Z, '%s\n(1,\n2)' % V, '%s\n%s' % (AL, '( )' if al_target == Z else '(4)'),
+                               '%s(5\n)' % F]), 'call-across-lines'
+        if k < 0.85:
+            return rng.choice([EMPTY, '%s %s' % (EMPTY, EMPTY), '%s(%s)' % (ID, EMPTY), '%s()' % ID]), 'empty-expansion'
+        return rng.choice(['p', '22', '+', '"s"', "'c'", ')', ';', ST, '%s(1)' % F, '%s()' % Z, OBJ, '#', 'p #', '%s #' % bare()]), 'ordinary-token'
+
+    def tail_ws():
+        k = rng.random()
+        if k < 0.5:
+            return ''
+        if k < 0.62:
+            feats.add('white-space-before-newline')
+            return rng.choice([' ', '\t', '  '])
+        if k < 0.74 and comments:
+            feats.add('comment-before-newline')
+            return rng.choice([' /* c */', '/**/', ' // c', ' /* a\n b */', ' /* a\n#undef x\n*/ '])
+        feats.add('blank-lines-before-directive')
+        return rng.choice(['\n', '\n\n', ' \n \n', '\n/* c */' if comments else '\n\t'])
+
+    def text_line():
+        cnt[0] += 1
+        e, f = ending()
+        feats.add('end-of-line:' + f)
+        mid = ' '.join(rng.choice(['p', '1', '+', ST, '%s(2)' % F, AL, bare() + ' ;', OBJ, EMPTY]) for _ in range(rng.choice([0, 0, 1, 2])))
+        head = '%sk%d' % (px, cnt[0])
+        if rng.random() < 0.3 and (mid or e).lstrip()[:1] not in ('(', '#'):
+            head = ''            # the line starts with the interesting tokens themselves (never with a parenthesis)
+        return ' '.join(x for x in (head, mid, e) if x) + tail_ws()
+
+    def cond():
+        k = rng.random()
+        if k < 0.3:
+            return rng.choice(['0', '1', '2 > 1', '1 - 1'])
+        if k < 0.55:
+            return rng.choice(['defined(%s)', '!defined(%s)', 'defined %s']) % rng.choice([ST, F, AL, px + 'NO'])
+        if k < 0.8:
+            return '%s %s %d' % (ST, rng.choice(['==', '!=', '<']), rng.randint(0, 2))
+        return '(%s + 1) * 2 > %d' % (ST, rng.randint(1, 7))
+
+    def directive(lines, depth):
+        k = rng.random()
+        if k < 0.22:
+            lines.append('#undef %s' % ST)
+            if rng.random() < 0.65:
+                lines.append('#define %s %d' % (ST, rng.randint(1, 3)))
+            feats.add('directive:define/undef')
+        elif k < 0.36:
+            # the macro named at the end of the line itself goes away / changes
+            f = rng.choice([F, AL, EMPTY, ID])
+            lines.append('#undef %s' % f)
+            if rng.random() < 0.7:
+                lines.append({F: '#define %s(x) { x }' % F, AL: '#define %s %s' % (AL, rng.choice(fnames + ['al'])),
+                              EMPTY: '#define %s' % EMPTY, ID: '#define %s(x) x' % ID}[f])
+            feats.add('directive:redefine-macro-in-use')
+        elif k < 0.44:
+            lines.append(rng.choice(['#', '# ', '#  /* null */' if comments else '#\t']))
+            feats.add('directive:null')
+        elif k < 0.52 and inc_name:
+            lines.append('#include "%s"' % inc_name)
+            lines.append(rng.choice(['#undef C09TAIL', '%sk%d C09TAIL(1) ;' % (px, 900 + cnt[0])]))
+            feats.add('directive:include-of-header-ending-with-function-like-name')
+        elif depth > 0:
+            form = rng.random()
+            lines.append('#if ' + cond() if form < 0.5 else ('#ifdef ' if form < 0.75 else '#ifndef ') + rng.choice([ST, F, px + 'NO']))
+            block(lines, depth - 1)
+            for _ in range(rng.choice([0, 0, 1, 2])):
+                lines.append('#elif ' + cond())
+                block(lines, depth - 1)
+            if rng.random() < 0.6:
+                lines.append('#else')
+                block(lines, depth - 1)
+            lines.append('#endif')
+            feats.add('directive:conditional')
+        else:
+            lines += ['#undef %s' % ST, '#define %s %d' % (ST, rng.randint(1, 3))]
+
+    def block(lines, depth):
+        for _ in range(rng.randint(1, 3)):
+            if rng.random() < 0.75:
+                lines.append(text_line())
+            directive(lines, depth)
+            if rng.random() < 0.3:
+                directive(lines, depth)
+
+    lines = []
+    block(lines, 2)
+    lines.append('%s %s(9) %s %s ;' % (ST, F, AL, EMPTY))           # the macro state at the end
+    if rng.random() < 0.5:
+        feats.add('bare-function-like-name-ends-the-case')
+        lines.append('%sk0 %s' % (px, bare()))
+    names = [F, Z, V, AL, AL2, TAIL, ID, PAIR, EMPTY, RF, ST, OBJ]
+    return '\n'.join(defs + lines) + '\n', sorted(feats), names
+
+
 # ------------------------------------------------------------------ conditional structures
 # A structure is generated as a tree (the C11 view: if-sections with their groups), rendered as text for the
 # preprocessors and in prefix form for the PpCond model (ocaml/driver_c09fn.ml, query `K`).
